@@ -269,6 +269,8 @@ LINES = {
     "raise-vvv-ascii": ("bad -vvv", False),
     "dflt-too-many": ("dflt a b", True),            # strict default sub-command: one argument too many
     "help-dflt-too-many": ("help dflt a b", True),  # help request whose arguments do not parse strictly
+    "help-top-sub": ("help top sub", True),         # two sub-commands with the same short name in different places
+    "help-other-sub": ("help other sub", True),
     # spares: VERIF_SEED rotates exactly one of them into the full alphabet
     "valid-ansi": ("foo a --ansi", True),
     "help-top": ("help top", True),
@@ -278,7 +280,8 @@ LINES = {
     "top": ("top", True),
 }
 CORE = ["valid", "bad-option", "too-many", "help", "help-foo", "help-len", "foo-h", "version", "unknown",
-        "len-surplus", "raise-vvv", "sub", "raise-vvv-ascii", "dflt-too-many", "help-dflt-too-many"]
+        "len-surplus", "raise-vvv", "sub", "raise-vvv-ascii", "dflt-too-many", "help-dflt-too-many",
+        "help-top-sub", "help-other-sub"]
 CORE_REDUCED = ["valid", "help-len", "len-surplus", "help-dflt-too-many", "dflt-too-many", "version", "raise-vvv"]
 REDUCED_ROT = ["too-many", "foo-h", "bad-option", "help-foo", "unknown", "sub", "raise-vvv-ascii", "help"]
 SPARES = ["valid-ansi", "help-top", "top-h", "len-h", "valid-quiet", "top"]
@@ -314,6 +317,13 @@ def build_app(mode):
             s.set_description("The sub-command")
             s.add_argument("x", Argument.OPTIONAL, "An argument")
             s.set_handler(handler("top sub", 3))
+    with c.command("other") as f:  # a second sub-command called "sub", with other parameters
+        f.set_description("Another command with a sub-command of the same name")
+        f.set_handler(handler("other", 2))
+        with f.sub_command("sub") as s:
+            s.set_description("The other sub-command")
+            s.add_option("flag", "f", Option.NO_VALUE, "A flag")
+            s.set_handler(handler("other sub", 3))
     with c.command("dflt") as f:  # has a default sub-command (strict, one argument)
         f.set_description("A command with a default sub-command")
         with f.sub_command("list") as s:
